@@ -220,37 +220,39 @@ Section Reader.
       end
     else None.
 
+  (** the children of an <array> / a <dict>, given the reading of one element *)
+  Definition arr_of (f : node -> option pv) : list node -> option (list pv) :=
+    fix arr (l : list node) : option (list pv) :=
+    match l with
+    | [] => Some []
+    | (Elem _ _ _ as k) :: r | (Empty _ _ as k) :: r =>
+        match f k, arr r with Some v, Some vs => Some (v :: vs) | _, _ => None end
+    | Text s :: r => if blank s then arr r else None
+    | _ :: r => arr r
+    end.
+  Definition dic_of (f : node -> option pv) : list node -> option str -> dict -> option dict :=
+    fix dic (l : list node) (pending : option str) (acc : dict) : option dict :=
+    match l with
+    | [] => match pending with None => Some acc | Some _ => None end
+    | (Elem _ _ _ as k) :: r | (Empty _ _ as k) :: r =>
+        match f k with
+        | None => None
+        | Some v =>
+            match pending with
+            | None => match v with PStr key => dic r (Some key) acc | _ => None end
+            | Some key => dic r None (dict_insert key v acc)
+            end
+        end
+    | Text s :: r => if blank s then dic r pending acc else None
+    | _ :: r => dic r pending acc
+    end.
+
   (** the value an element denotes *)
   Fixpoint pv_of (n : node) : option pv :=
     match n with
     | Elem name _ kids =>
-        if str_eqb name n_array then
-          option_map PArr
-            ((fix arr (l : list node) : option (list pv) :=
-                match l with
-                | [] => Some []
-                | (Elem _ _ _ as k) :: r | (Empty _ _ as k) :: r =>
-                    match pv_of k, arr r with Some v, Some vs => Some (v :: vs) | _, _ => None end
-                | Text s :: r => if blank s then arr r else None
-                | _ :: r => arr r
-                end) kids)
-        else if str_eqb name n_dict then
-          option_map PDict
-            ((fix dic (l : list node) (pending : option str) (acc : dict) : option dict :=
-                match l with
-                | [] => match pending with None => Some acc | Some _ => None end
-                | (Elem _ _ _ as k) :: r | (Empty _ _ as k) :: r =>
-                    match pv_of k with
-                    | None => None
-                    | Some v =>
-                        match pending with
-                        | None => match v with PStr key => dic r (Some key) acc | _ => None end
-                        | Some key => dic r None (dict_insert key v acc)
-                        end
-                    end
-                | Text s :: r => if blank s then dic r pending acc else None
-                | _ :: r => dic r pending acc
-                end) kids None [])
+        if str_eqb name n_array then option_map PArr (arr_of pv_of kids)
+        else if str_eqb name n_dict then option_map PDict (dic_of pv_of kids None [])
         else if str_eqb name n_true then Some (PBool true)
         else if str_eqb name n_false then Some (PBool false)
         else leaf_value name kids
@@ -295,11 +297,10 @@ Definition sort_keys {A} (l : list (str * A)) : list (str * A) :=
   fold_right (fun kv acc => insert_sorted (fst kv) (snd kv) acc) [] l.
 
 (** [util::recursive_sort_plist_keys]: through dictionaries only, not through arrays *)
+Definition map_values (f : pv -> pv) (d : dict) : dict := map (fun kx => let '(k, x) := kx in (k, f x)) d.
 Fixpoint sort_keys_rec_pv (v : pv) : pv :=
   match v with
-  | PDict d =>
-      PDict (sort_keys ((fix go (l : dict) : dict :=
-                           match l with [] => [] | (k, x) :: r => (k, sort_keys_rec_pv x) :: go r end) d))
+  | PDict d => PDict (sort_keys (map_values sort_keys_rec_pv d))
   | _ => v
   end.
 Definition sort_keys_rec (d : dict) : dict :=
